@@ -87,6 +87,21 @@ def merge_absolute_range(ctx):
                 for c in ast.walk(n.value)):
             for t in n.targets:
                 acc |= {x.id for x in ast.walk(t) if isinstance(x, ast.Name)}
+    # ... and what is computed from them only (min / max folds, unpacked temps)
+    changed = True
+    while changed:
+        changed = False
+        for n in f.own_nodes():
+            if isinstance(n, ast.Assign):
+                names_ = {x.id for x in ast.walk(n.value) if isinstance(x, ast.Name)} - \
+                    {"min", "max"}
+                tg = {x.id for t in n.targets for x in ast.walk(t) if isinstance(x, ast.Name)}
+                if names_ and names_ <= acc and not any(
+                        isinstance(c, ast.Call) and not (isinstance(c.func, ast.Name) and
+                                                         c.func.id in ("min", "max"))
+                        for c in ast.walk(n.value)) and not tg <= acc:
+                    acc |= tg
+                    changed = True
     for n in sets:
         used = {x.id for x in ast.walk(n.value) if isinstance(x, ast.Name)}
         upper = "%s.getActive()" % f.params[0] in text(n.value).replace(" ", "")
